@@ -113,7 +113,7 @@ pub fn expected_sheets(c: &Case) -> (Sheet, Sheet, usize) {
                     let path = match &im.form {
                         css::ImportForm::Str(s) | css::ImportForm::UrlFn(s) | css::ImportForm::Url(s) | css::ImportForm::UrlFnNamed(_, s) => s.clone(),
                     };
-                    normal.push(Node::ImportPlaceholder { layer: im.layer.clone(), supports: im.supports.clone(), media: im.media.clone(), comment_path: path });
+                    normal.push(Node::ImportPlaceholder { layer: im.layer.clone(), supports: im.supports.clone(), media: im.media.clone(), comment_path: path, supports_sel: im.supports_sel.clone() });
                 }
                 other => normal.push(other.clone()),
             }
@@ -182,6 +182,90 @@ impl PropCheck for C17 {
     }
 
     fn case_from_json(&self, v: &Value) -> Result<Case, String> {
+        serde_json::from_value(v["case"].clone()).map_err(|e| e.to_string())
+    }
+}
+
+/// C19, model-free stage: the printed sheet is damaged (cut off at a random character, so that blocks, functions and
+/// brackets are closed by the end of the input; a byte order mark in front) and judged by `fuzz_oracles::wxss_map`:
+/// every source-map entry of both outputs names corresponding tokens at its two ends.
+#[derive(Clone, Debug, Serialize, Deserialize)]
+pub struct RawCase {
+    pub base: Case,
+    /// cut after this share (per 1000) of the characters
+    pub cut: Option<u16>,
+    pub bom: bool,
+    /// option bits of `fuzz_oracles::wxss_map`
+    pub opts_byte: u8,
+    pub raw_stage: bool,
+}
+
+pub struct C19Raw {
+    pub cfg: gen::css::CssCfg,
+}
+
+pub fn raw_text(c: &RawCase) -> String {
+    let p = css::print(&c.base.sheet, c.base.style);
+    let mut text: String = match c.cut {
+        Some(k) => {
+            let n = p.text.chars().count();
+            p.text.chars().take(n * k as usize / 1000).collect()
+        }
+        None => p.text,
+    };
+    if c.bom {
+        text.insert(0, '\u{feff}');
+    }
+    text
+}
+
+impl PropCheck for C19Raw {
+    type Case = RawCase;
+
+    fn strategy(&self) -> BoxedStrategy<RawCase> {
+        let base = C17 { prop: "C19", cfg: self.cfg.clone() }.strategy();
+        (base, proptest::option::weighted(0.8, 0u16..1000), proptest::bool::weighted(0.25), any::<u8>()).prop_map(|(base, cut, bom, opts_byte)| RawCase { base, cut, bom, opts_byte, raw_stage: true }).boxed()
+    }
+
+    fn needs_worker(&self) -> bool {
+        false
+    }
+
+    fn eval(&self, _w: Option<&mut Worker>, cases: &[RawCase]) -> Result<Vec<Outcome>, String> {
+        Ok(cases
+            .iter()
+            .map(|c| {
+                let mut out = Outcome::default();
+                let text = raw_text(c);
+                out.units = text.len() as u64;
+                if c.cut.is_some() {
+                    out.labels.push("raw:cut".into());
+                }
+                if c.bom {
+                    out.labels.push("raw:bom".into());
+                }
+                match catch_unwind(AssertUnwindSafe(|| super::fuzz_oracles::wxss_map_strict(&text, c.opts_byte))) {
+                    Ok(None) => {}
+                    Ok(Some((_, what))) => {
+                        let class = if what.contains("maps output column") { "correspondence" } else if what.contains("outside the source") { "outside" } else if what.contains("decrease") { "order" } else { "other" };
+                        out.failures.push(Failure { sig: format!("C19|raw|{}", class), tag: None, what, detail: json!({"source": text, "opts_byte": c.opts_byte}) });
+                    }
+                    Err(p) => out.failures.push(Failure { sig: format!("C19|raw|panic|{}", short_hash(&panic_message(p))), tag: None, what: format!("transformer panicked on {:?}", crate::util::truncate(&text, 200)), detail: json!({"source": text}) }),
+                }
+                if c.cut.is_some() || c.bom {
+                    out.nt.push(fnv64(text.as_bytes()));
+                }
+                out.sample = Some(json!({"source": crate::util::truncate(&text, 300), "opts_byte": c.opts_byte}));
+                out
+            })
+            .collect())
+    }
+
+    fn case_json(&self, case: &RawCase) -> Value {
+        json!({"case": serde_json::to_value(case).unwrap(), "source": raw_text(case), "raw_stage": true})
+    }
+
+    fn case_from_json(&self, v: &Value) -> Result<RawCase, String> {
         serde_json::from_value(v["case"].clone()).map_err(|e| e.to_string())
     }
 }
@@ -418,6 +502,13 @@ pub fn run(prop: &'static str, tier: Tier, seed: u64, findings: &Findings) -> i3
     report.merge(engine::run_generated(&check, &cfg, cases, 16, 16, findings, 0));
     let mut assumptions: Vec<String> = vec!["cssparser tokenizer".into(), "sourcemap crate decoder".into(), "expected sheets derived from the generator's model".into()];
     if prop == "C19" {
+        // model-free stage on damaged sheets (cut off, byte order mark)
+        let mut rcfg = gen::css::CssCfg::new();
+        rcfg.hosts = true;
+        rcfg.imports = true;
+        let raw = C19Raw { cfg: rcfg };
+        report.merge(engine::run_generated(&raw, &cfg, tier.pick(60_000, 2_000_000), 16, 16, findings, 1));
+        assumptions.push("model-free stage: generated sheets cut off at a random character and / or with a byte order mark in front; for every source-map entry of both outputs the first token of the source at the source position corresponds to the first token of the output at the generated column (equal token; closing bracket -> its opening bracket or the same bracket; rpx value / prefixed class -> the original; tokens synthesised by the @import / :host rewrites -> the `@import` keyword / the `:`)".into());
         // coverage-guided stage on arbitrary stylesheets: source positions inside the source, destination order
         super::fuzz_stage::replay_regress("wxss_map", "C19", &mut report);
         if tier == Tier::Thorough && report.violations.is_empty() {
@@ -437,6 +528,9 @@ pub fn run(prop: &'static str, tier: Tier, seed: u64, findings: &Findings) -> i3
 }
 
 pub fn replay(prop: &'static str, v: &Value, path: &str, findings: &Findings) -> i32 {
+    if prop == "C19" && v["case"]["raw_stage"].as_bool() == Some(true) {
+        return super::replay_generic(&C19Raw { cfg: gen::css::CssCfg::new() }, prop, v, path, findings);
+    }
     let check = C17 { prop, cfg: gen::css::CssCfg::new() };
     super::replay_generic(&check, prop, v, path, findings)
 }
